@@ -7,6 +7,7 @@ import (
 
 	"github.com/tetratelabs/wazero/verifharness/cfgreplay"
 	"github.com/tetratelabs/wazero/verifharness/fcache"
+	"github.com/tetratelabs/wazero/verifharness/isoreplay"
 	"github.com/tetratelabs/wazero/verifharness/linkreplay"
 	"github.com/tetratelabs/wazero/verifharness/memacc"
 	"github.com/tetratelabs/wazero/verifharness/memreplay"
@@ -24,6 +25,7 @@ var cmds = map[string]func([]string){
 	"replay-memacc":     memacc.Main,
 	"memacc-child":      memacc.Child,
 	"replay-link":       linkreplay.Main,
+	"replay-iso":        isoreplay.Main,
 	"fc-child":          fcache.Child,
 	"fc-replay":         fcache.ReplayProc,
 	"fc-gate":           fcache.ReplayGate,
